@@ -1,0 +1,33 @@
+//go:build verif
+
+package partition
+
+import (
+	"context"
+
+	"github.com/logrange/logrange/pkg/model"
+	"github.com/logrange/logrange/pkg/tmindex"
+	"github.com/logrange/range/pkg/records/chunk"
+	"github.com/logrange/range/pkg/records/journal"
+)
+
+// VerifChunkWindows (verification harness, C03/C16): for every chunk of the journal the status
+// {minPos, maxPos, count} that a fresh chkSelector computes for the time range (rebuildChunkStatuses,
+// i.e. updatePoss over the real time index).
+func VerifChunkWindows(ctx context.Context, tmRange model.TimeRange, jrnl journal.Journal, tmidx tmindex.TsIndexer, rb TmIndexRebuilder) ([]chunk.Id, [][3]uint32) {
+	cs := newChkSelector(tmRange, jrnl, tmidx, rb)
+	cks, err := jrnl.Chunks().Chunks(ctx)
+	if err != nil || len(cks) == 0 {
+		return nil, nil
+	}
+	cs.rebuildChunkStatuses(ctx, cks)
+	ids := make([]chunk.Id, len(cks))
+	win := make([][3]uint32, len(cks))
+	for i, ck := range cks {
+		ids[i] = ck.Id()
+		if st := cs.stats[ck.Id()]; st != nil {
+			win[i] = [3]uint32{st.minPos, st.maxPos, st.count}
+		}
+	}
+	return ids, win
+}
